@@ -317,7 +317,7 @@ var propStreams = map[string][]string{
 	"C09": {"COMPACT"},
 	"C10": {"SHARE", "COMPACT", "SPARSE"},
 	"C11": {"COMPACT"},
-	"C12": {"BUILDER", "COMPACT"},
+	"C12": {"BUILDER", "COMPACT", "CHIST"},
 	"C13": {"COUNTER", "ARITHLEN", "SPARSE"},
 	"C14": {"BHIST", "CHIST"},
 	"C15": {"ARITH"},
